@@ -290,6 +290,36 @@ def _registers(body, subject: str, idx_ok, want: str):
     return False
 
 
+def check_binary_clear(ctx: Ctx, oid: str):
+    """BinaryImplications.clear_learned(original_count) drops exactly the entries of learned clauses: every list of
+    `pos` and of `neg` is filtered by the *clause index* of the entry (its second component) against the count - an input
+    clause loses nothing.  Binary clauses are on no watch list: an entry dropped here is a clause the search never looks
+    at again."""
+    m = ctx.repo.module("sat")
+    f = m.funcs.get("BinaryImplications.clear_learned")
+    ctx.require(f is not None, "BinaryImplications.clear_learned not found")
+    ctx.touch(f)
+    cnt = [x for x in f.params if x != "self"][0]
+    comps = [n for n in own_nodes(f.node) if isinstance(n, (ast.ListComp, ast.GeneratorExp))]
+    ok = bool(comps)
+    why = "no filtering comprehension found"
+    for c in comps:
+        g = c.generators[0]
+        # the component compared with the count: second name of the unpacked pair, or <entry>[1]
+        second = None
+        if isinstance(g.target, ast.Tuple) and len(g.target.elts) == 2 and isinstance(g.target.elts[1], ast.Name):
+            second = g.target.elts[1].id
+        elif isinstance(g.target, ast.Name):
+            second = f"{g.target.id}[1]"
+        good = len(g.ifs) == 1 and second is not None and atom_of(ast.unparse(g.ifs[0])) == atom_of(f"{second} < {cnt}")
+        if not good:
+            ok, why = False, f"`{ast.unparse(c)[:70]}` does not keep exactly the entries whose clause index (second component) is below `{cnt}`"
+    lists = {ast.unparse(x) for n in own_nodes(f.node) if isinstance(n, ast.For) for x in ast.walk(n.iter) if isinstance(x, ast.Attribute)}
+    both = {"self.pos", "self.neg"} <= lists
+    conditional = [n for n in own_nodes(f.node) if isinstance(n, ast.If)]
+    ctx.ob(oid, "R25 REGISTRATION-TABLE", f, "clear_learned filters every list of pos and neg by the entry's clause index against the input-clause count", ok and both, (why if not ok else f"lists walked: {sorted(lists)}") + ": an input binary clause whose entries are dropped is enforced by nothing afterwards (a model that falsifies it is returned)", node=comps[0] if comps else f.node)
+
+
 def check_binary_add(ctx: Ctx, oid: str):
     """BinaryImplications.add is how a two-literal clause becomes visible to propagation (input clauses, learned and
     blocking clauses, the reduce_db rebuild all go through it): on every path it files (b, idx) under a and (a, idx)
